@@ -25,6 +25,10 @@ pub enum Op {
     AsOffset { off: i32 },
     FromDateTime { i: Inst, off: i32 },
     FormatParse,
+    /// an operand computed at run time from the current value so that the result lands exactly on
+    /// 00:00:00 + delta ns: kind 0 = Time + Time, 1 = Time + Duration, 2 = Time - Time (operand = the
+    /// value itself + delta), 3 = add_nanos/add_seconds when the complement fits
+    Complement { kind: u8, delta: i8 },
 }
 
 #[derive(Debug, Clone, Hash, Serialize, Deserialize)]
@@ -77,6 +81,7 @@ fn gen_op(u: &mut Unstructured) -> arbitrary::Result<Op> {
         12 => Op::SetOffset { off: gen::offset(u)? },
         13 => Op::AsOffset { off: gen::offset(u)? },
         14 => Op::FromDateTime { i: gen::inst(u, 2)?, off: gen::offset(u)? },
+        15 if u.coin(1, 2)? => Op::Complement { kind: u.below(4)? as u8, delta: *u.choose(&[0i8, 0, 1, -1, 2])? },
         _ => Op::FormatParse,
     })
 }
@@ -140,6 +145,7 @@ fn model_apply(m: &mut Model, op: &Op) -> Option<bool> {
             m.off = *off;
         }
         Op::FormatParse => {}
+        Op::Complement { .. } => {} // resolved into a concrete operation before it gets here
     }
     Some(true)
 }
@@ -216,6 +222,7 @@ fn impl_apply(t: Time, op: &Op) -> Result<Time, AstrolabeError> {
         Op::AsOffset { off } => t.as_offset(Offset::Fixed(*off)),
         Op::FromDateTime { i, off } => Time::from(mk_dt_off(i.i(), *off)),
         Op::FormatParse => Time::parse(&t.format(PATTERN), PATTERN)?,
+        Op::Complement { .. } => t,
     })
 }
 
@@ -233,6 +240,7 @@ fn op_name(op: &Op) -> &'static str {
         Op::AsOffset { .. } => "as_offset",
         Op::FromDateTime { .. } => "from_datetime",
         Op::FormatParse => "format_parse",
+        Op::Complement { .. } => "complement",
     }
 }
 
@@ -290,6 +298,32 @@ fn run_history(c: &Case, cx: &mut Cx) -> Verdict {
         return v;
     }
     for (i, op) in c.ops.iter().enumerate() {
+        // a Complement is turned into a concrete operation from the current reference state
+        let resolved: Op;
+        let op = match op {
+            Op::Complement { kind, delta } => {
+                cx.nt("operand_chosen_to_land_exactly_on_midnight");
+                let amount = (*delta as i128 - m.ns).rem_euclid(DAY);
+                resolved = match kind {
+                    0 => Op::TimeOp { ns: amount as u64, sub: false, assign: false },
+                    1 => Op::Dur { secs: (amount / tl::NS) as u64, nanos: (amount % tl::NS) as u32, sub: false, assign: true },
+                    2 => Op::TimeOp { ns: (m.ns - *delta as i128).rem_euclid(DAY) as u64, sub: true, assign: true },
+                    _ => {
+                        if amount <= u32::MAX as i128 {
+                            Op::Unit { unit: 6, count: amount as u32, sub: false }
+                        } else if amount % tl::NS == 0 {
+                            Op::Unit { unit: 3, count: (amount / tl::NS) as u32, sub: false }
+                        } else if amount % 1_000 == 0 && amount / 1_000 <= u32::MAX as i128 {
+                            Op::Unit { unit: 5, count: (amount / 1_000) as u32, sub: false }
+                        } else {
+                            Op::TimeOp { ns: amount as u64, sub: false, assign: true }
+                        }
+                    }
+                };
+                &resolved
+            }
+            other => other,
+        };
         // malformed replays
         match op {
             Op::Unit { unit, .. } if !(1..=6).contains(unit) => return Verdict::Skip("malformed case"),
